@@ -13,6 +13,28 @@ RAX = ("Axioms (standard library, as printed by Print Assumptions for the theore
        "ClassicalDedekindReals.sig_not_dec, FunctionalExtensionality.functional_extensionality_dep, Classical_Prop.classic; "
        "theorems over abstract rings/fields are closed under the global context. ")
 CLAIMED = {
+ "C08": dict(
+   text="Machine-checked Coq theorems: for Decomposed over ANY rotation type satisfying ten stated laws (RotLaws3 / RotLaws2) on its valid elements, and any field: "
+        "concat/Mul/concat_self compose on points and vectors, one() is neutral, transform_vector ignores displacement, inverse_transform is None iff the "
+        "ulps-comparison of scale with 0 holds and otherwise undoes the transform on points and vectors on both sides (scale != 0), inverse_transform_vector agrees, and "
+        "conversion to Matrix4/Matrix3 commutes with applying, composing and inverting; a theorem that unit quaternions, orthonormal Basis3 and orthonormal Basis2 satisfy "
+        "the laws; the same composition/inversion laws for Matrix3 as a 3-D transform (all matrices) and for affine Matrix4 / Matrix3-as-2-D transforms. " + TIE +
+        "Scales include 0, negative, negligible (2^-60) and small (1e-5) values; all five Transform implementations are exercised.",
+   note=NOTE + "No axioms. ulps_eq! is an oracle of the scalar type (Approx record); matrix laws are for affine matrices (documented domain of Transform).",
+   design="6 (C08)", technique="Coq proof over an abstract rotation type with stated laws + instances; exact-rational correspondence"),
+ "C10": dict(
+   text="Machine-checked Coq theorems (any field, denominators non-zero): ortho is affine and maps the eight box corners to the cube corners (near -> -1, far -> +1); "
+        "frustum has w = -z and maps the near rectangle and the similar far rectangle onto the z = -1 / z = +1 faces; perspective's matrix equals frustum's of the "
+        "symmetric window n*tan(fovy/2) x aspect (tan an arbitrary oracle symbol); planar maps the z = 0 window to [-1,1]^2, z = -n -> -1, z = -f -> +1 and its w vanishes "
+        "exactly at z = (h/2)cot(fovy/2). Over R with an abs_diff_eq oracle specified by ApproxSpecR: every listed precondition violation makes the constructor return "
+        "None (= panic) and valid tuples are accepted. " + TIE + "Valid asymmetric windows, rational tangents, and tuples violating exactly one precondition (panic <-> None).",
+   note=NOTE + RAX + "planar with fovy = 0 (float-only division by zero) is not claimed.",
+   design="6 (C10)", technique="Coq proof (field identities; case analysis over R for the assertions) + exact-rational correspondence"),
+ "C12": dict(
+   text="Machine-checked Coq theorems for points of dimension 1-3 over any commutative ring/field: affine-space laws, to_vec/from_vec inverse, origin, component-wise "
+        "action of every point operator and element-wise method, point-vector dot, midpoint (definition and (p+q)/2 form), centroid = sum of position vectors / n for "
+        "EVERY list (induction over the list, fold_left as in the code), homogeneous round trip for k != 0. " + TIE + "Lists of length 1..40; native i32 runs against the Z instance.",
+   note=NOTE + "No axioms.", design="6 (C12)", technique="Coq proof (ring/field, list induction) + exact-rational correspondence"),
  "C04": dict(
    text="Machine-checked Coq theorems over the Gallina model of src/quaternion.rs, for all quaternions over any commutative ring/field: associativity, "
         "distributivity, identity, Hamilton's relations, conjugate anti-homomorphism, multiplicative norm, two-sided inverse when |q|^2 != 0 (over R: when q != 0), "
